@@ -1,7 +1,8 @@
-from . import check_combo, check_establish, check_framing, check_pool, check_upgrade, check_url
+from . import check_combo, check_establish, check_framing, check_pool, check_reqwire, check_upgrade, check_url
 
 REGISTRY = {
     "C02": check_framing,
+    "C03": check_reqwire,
     "C04": check_pool,
     "C05": check_pool,
     "C06": check_pool,
